@@ -133,7 +133,7 @@ func runBuilder(c BuilderCase, ev *pbt.Ev) error {
 }
 
 func TestProp_Builder(t *testing.T) {
-	pbt.Run(t, pbt.Options{Prop: "C04", Name: "Builder", Quick: 6000, Thorough: 500000, Current: true, Timeout: 60 * time.Second,
+	pbt.Run(t, pbt.Options{Prop: "C04", Name: "Builder", Quick: 6000, Thorough: 72000, Current: true, Timeout: 60 * time.Second,
 		Rule: "rapid: inputs handed to estargz.Build / Writer.AppendTar / AppendTarLossLess / Unpack: raw bytes (optionally starting with gzip / zstd magic), and tar archives written entry by entry with hostile structure (hardlinks to themselves / each other / directories / missing names, names '' . .. /, " +
 			"unsupported type flags, declared size larger than the payload, archive cut 1-1500 bytes short), plain or inside complete / truncated gzip or zstd, with a prioritized list drawn from the same names; oracle: (value|error), no panic / fatal error / hang; a blob that was built is fed to the readers. non-trivial = structured archive with entries",
 	}, genBuilder, runBuilder)
